@@ -281,12 +281,19 @@ def c_spi_slave(dw=8):
     h.hint("sync.clk3", V(clk_d) == c3)
     h.hint("state", V(st) == s3)                          # XFER exactly one cycle behind the (synchronised) chip select
     sel = b(s2); rise = z3.And(b(c2), z3.Not(b(c3))); fall = z3.And(z3.Not(b(c2)), b(c3))
-    # partner: a mode-0 master keeps SCK low while CS is high and still in the first system-clock cycle in which CS is low
+    # partner: SCK may toggle while this slave is deselected (shared bus: traffic for other devices); it is low around every chip-select edge:
+    # in the system-clock cycle before the edge, at the edge and in the cycle after it (chip-select setup / hold of one cycle)
     pcs = h.prev("csn", V(p.cs_n), init=1)
-    h.assume(z3.Implies(z3.Or(b(V(p.cs_n)), b(pcs)), V(p.clk) == zero), "SPI mode 0 master: SCK is low while CS_n is high and in the first system clock cycle of CS_n low (chip-select setup of at least one cycle)")
-    h.hint("a.clk1", z3.Implies(z3.Or(s1 == zero, s2 == zero), c1 == zero)); h.hint("a.clk2", z3.Implies(z3.Or(s2 == zero, s3 == zero), c2 == zero))
+    edge = V(p.cs_n) != pcs
+    p_edge = h.prev("csedge", bv1(edge))
+    h.assume(z3.Implies(edge, z3.And(V(p.clk) == zero, c1 == zero)), "SPI master: SCK is low in the system-clock cycle before a chip-select edge and at the edge (SCK may toggle while CS_n is high: shared bus)")
+    h.assume(z3.Implies(b(p_edge), V(p.clk) == zero), "SPI master: SCK is still low in the system-clock cycle after a chip-select edge")
     h.hint("a.pcs", pcs == ~s1)
-    s4 = h.prev("sel4", s3); h.hint("a.clk3", z3.Implies(z3.Or(s3 == zero, s4 == zero), c3 == zero))
+    s4 = h.prev("sel4", s3)
+    h.hint("a.pedge", b(p_edge) == (s1 != s2))
+    h.hint("a.e1", z3.Implies(s1 != s2, z3.And(c1 == zero, c2 == zero)))
+    h.hint("a.e2", z3.Implies(s2 != s3, z3.And(c1 == zero, c2 == zero, c3 == zero)))
+    h.hint("a.e3", z3.Implies(s3 != s4, z3.And(c2 == zero, c3 == zero)))
     # ---- chip-select framing
     h.ensure("ens.start", b(V(d.start)) == z3.And(sel, z3.Not(b(s3))))          # one pulse in the first cycle of the frame
     h.ensure("ens.irq", b(V(d.irq)) == z3.And(z3.Not(sel), b(s3)))              # one pulse in the first cycle after the frame
@@ -466,7 +473,7 @@ def cases(tier):
 ASSUMPTIONS = [
     "RS232PHYRX (per-bit case): no assumption on the line or the tuning word; the k-th sample instant is stated as exact accumulator arithmetic (floor((2^31 + sum of tuning words) / 2^32)), termination needs tuning word != 0",
     "RS232PHYRX (link cases): the rx pad carries the waveform of a ghost ideal transmitter (start, 8 data bits LSB first, stop; symbolic byte, symbolic idle gaps including back-to-back frames; line idle during the first three cycles after reset). (a) 'tw symbolic': rigid symbolic 32-bit tuning word with bit period >= 12 cycles, transmitter at exactly the programmed rate with a symbolic sub-cycle phase at every start bit; in RUN the ghost's phase is carried in a regrouped form and `ens.ghost-is-ideal-tx` certifies that it equals the ideal transition function. (b) concrete programmed bit periods of 16 / 32 (/ 64) cycles with a transmitter bit period that is a rigid symbolic INTEGER number of cycles within +-0 / +-1 (/ +-2), i.e. +-3.1% at T=32. NOT covered: rate mismatch together with a symbolic tuning word (see the note above c_uart_rx_link_int), bit periods below 12 cycles, glitch rejection on the start bit (the receiver does not re-check the start bit at mid-bit; outside C19)",
-    "SPISlave: mode-0 master keeps SCK low while CS_n is high and in the first system clock cycle of CS_n low (chip-select setup >= 1 cycle); all pads are seen through their two-stage synchronisers; `length` is stated modulo 2^8; capture claim for frames of 1..data_width bits",
+    "SPISlave: SCK may toggle while the slave is deselected (shared bus); the master keeps SCK low in the system-clock cycle before, at and after every chip-select edge (setup/hold of one cycle) - without this a pulse straddling the edge is captured but not counted in `length`",
     "I2CMaster: Tristate primitives removed from the fragment, SCL pad input = the level this master drives (no clock stretching, single master); mode 'disciplined': xfer register written only while idle, divider programmed >= 1 before the first command and only while idle; 'overlap' / 'div0' drop one of these and carry the findings. Not covered: data/ack bit VALUES against the written byte, litex/soc/cores/bitbang.py (software bit-banging: no hardware sequencing)",
     "timeline: checked through a harness that sets a flag register per listed offset; a timeline whose only offset is 0 cannot be elaborated (Signal(max=1) assertion) and is not a case",
 ]
